@@ -154,6 +154,8 @@ def _explore_task(args):
     ex.concrete_uf = fam.concrete_uf
     ex.xcheck_budget = int(os.environ.get("VERIF_XCHECK", "0") or 0)
     ex.path_hooks.append(uf.reset_path)
+    bind.snapshot_state()
+    ex.path_hooks.append(bind.restore_state)
     core.EX = ex
     res = {"case": case, "paths": 0, "candidates": [], "unknown": 0, "checked": 0, "validated": 0,
            "validation_mismatch": [], "snap_miss": 0, "tags": {}, "samples": [], "errors": [],
@@ -425,8 +427,24 @@ def run_property(prop, tier, seed, jobs=None, only_family=None):
                 a = (prop, fam.name, case, None, fam.split_depth > 0)
                 futs[pool.submit(_explore_task, a)] = a
             pending = set(futs)
+            # watchdog: tasks are short (split_paths paths each, every query under a time limit), but z3's nonlinear core can ignore its
+            # limit (observed: nla::core::patch_monomial spinning for 20 min on a query made nonlinear by a seeded change).  No task
+            # finishing for stall_s seconds => the workers are killed and the run is INCONCLUSIVE (exit 2), never a pass and never a hang.
+            stall_s = float(os.environ.get("VERIF_STALL_S", "900" if tier == "quick" else "3600"))
+            last_done = time.time()
             while pending:
-                done, pending = cf.wait(pending, return_when=cf.FIRST_COMPLETED)
+                done, pending = cf.wait(pending, timeout=20, return_when=cf.FIRST_COMPLETED)
+                if done:
+                    last_done = time.time()
+                elif time.time() - last_done > stall_s:
+                    inconclusive.append(f"{fam.name}: no task returned for {stall_s:.0f} s (solver ignored its time limit); workers killed, {len(pending)} tasks unexplored")
+                    for pr in list(getattr(pool, "_processes", {}).values()):
+                        try:
+                            pr.kill()
+                        except Exception:
+                            pass
+                    pending = set()
+                    break
                 for f in done:
                     a = futs[f]
                     try:
